@@ -693,7 +693,7 @@ func (cs *ContractSet) loadContractFile(path, pkgPath string) error {
 					cur.Unguarded = append(cur.Unguarded, u)
 				}
 			}
-		case "pure", "trusted", "inline", "lemma", "noinline", "opaque", "entry", "safety_off", "lockbalance", "calls_havoc", "lockset", "noloopframe", "interference", "requires_off", "go_summary":
+		case "pure", "trusted", "inline", "lemma", "noinline", "opaque", "entry", "safety_off", "lockbalance", "calls_havoc", "lockset", "noloopframe", "interference", "requires_off", "go_summary", "go_inline":
 			if cur == nil {
 				return fail(fmt.Errorf("%s outside func", word))
 			}
